@@ -27,11 +27,12 @@ class C07(Check):
                ('src/fast_ticc/data_preparation.py', 'stack_training_data_multiple_series')]
     obligations = ['template_zero_exactly_on_boundary_pairs', 'masked_cost_reaches_labelling_step',
                    'joint_labelling_minimises_within_series_cost', 'no_window_mixes_two_series',
-                   'joint_of_one_series_equals_single']
+                   'joint_of_one_series_equals_single', 'every_series_reaches_the_labelling_step']
     obligation_text = {
         'template_zero_exactly_on_boundary_pairs': 'template[i]==0 iff the pair (i,i+1) straddles a series boundary, 1 otherwise, for i < total-1 (the last entry is never read by the kernel)',
         'masked_cost_reaches_labelling_step': 'the switching cost observed at the labelling kernel is the per-pair vector beta*template',
         'joint_labelling_minimises_within_series_cost': 'returned joint labelling minimises, and the reported cost equals, assignment cost + switching cost over within-series pairs only (rival labelling symbolic)',
+        'every_series_reaches_the_labelling_step': 'the cost table labelled jointly has one row per window of EVERY input series (W=1: sum of the lengths, also when a series is exactly W long) and one label list per series, of the series\' length, comes back',
         'no_window_mixes_two_series': 'every row of the joint stacking equals a row of exactly one series stacked alone',
         'joint_of_one_series_equals_single': 'ticc_joint_labels([X]) and ticc_labels(X) hand fit_stacked_data equal data and equal arguments up to the form of beta, and return equal labels/cost',
     }
@@ -112,6 +113,13 @@ class C07(Check):
             c.prove('masked_cost_reaches_labelling_step', False, detail={'kernel_calls': 0})
             return
         cost_tab, seen_beta, (path, reported) = ml.kernel_calls[-1]
+        pl = res.point_labels
+        g = [np.asarray(cost_tab).shape[0] == T, isinstance(pl, list) and len(pl) == len(lens)]
+        if all(g):
+            g += [len(lab) == L for lab, L in zip(pl, lens)]
+        if not c.prove('every_series_reaches_the_labelling_step', all(g),
+                       detail={'rows': int(np.asarray(cost_tab).shape[0]), 'T': T}):
+            return
         f = [isinstance(seen_beta, np.ndarray) and seen_beta.shape == (T,)]
         if f[0]:
             for i in range(T - 1):
